@@ -39,6 +39,7 @@ type Violation struct {
 	Stack   []string
 	Decs    int
 	Outputs []string
+	Known   string
 }
 
 // ReplayItem is the concrete value of one intrinsic call.
@@ -75,6 +76,30 @@ type pathState struct {
 	unwind   string
 	symDecs  int
 	outputs  []string
+	known    string
+	forced   []int
+	lits     map[int]bool // term id -> asserted polarity (syntactic shortcut)
+}
+
+func (ps *pathState) addPC(t *Term) {
+	ps.pc = append(ps.pc, t)
+	if ps.lits == nil {
+		ps.lits = map[int]bool{}
+	}
+	if t.op == "not" {
+		ps.lits[t.args[0].id] = false
+	} else {
+		ps.lits[t.id] = true
+	}
+	if t.op == "and" {
+		for _, a := range t.args {
+			if a.op == "not" {
+				ps.lits[a.args[0].id] = false
+			} else {
+				ps.lits[a.id] = true
+			}
+		}
+	}
 }
 
 // Config of an exploration.
@@ -88,6 +113,7 @@ type Config struct {
 	MaxEnum      int   // values per concretisation
 	MaxPaths     int
 	Env          *EnvConfig
+	Params       map[string]int
 	QueryLog     string // file to log deciding queries for cross-checking
 	Verbose      bool
 }
@@ -176,6 +202,14 @@ func (i *interpreter) truth(c value) bool {
 	s := c.(sv)
 	ps := i.ps()
 	tt := ps.tt
+	if pol, ok := ps.lits[s.T.id]; ok {
+		return pol // already asserted on this path: no decision
+	}
+	if s.T.op == "not" {
+		if pol, ok := ps.lits[s.T.args[0].id]; ok {
+			return !pol
+		}
+	}
 	pos := len(ps.trail)
 	if pos < len(ps.prefix) {
 		d := ps.prefix[pos]
@@ -184,9 +218,9 @@ func (i *interpreter) truth(c value) bool {
 		}
 		ps.trail = append(ps.trail, d)
 		if d.Val != 0 {
-			ps.pc = append(ps.pc, s.T)
+			ps.addPC(s.T)
 		} else {
-			ps.pc = append(ps.pc, tt.Not(s.T))
+			ps.addPC(tt.Not(s.T))
 		}
 		ps.model = nil
 		if len(ps.trail) == len(ps.prefix) {
@@ -231,17 +265,17 @@ func (i *interpreter) truth(c value) bool {
 		alt := append(append([]dec{}, ps.trail...), dec{Kind: 'b', Val: 0})
 		ps.newJobs = append(ps.newJobs, job{alt, mF})
 		ps.trail = append(ps.trail, dec{Kind: 'b', Val: 1})
-		ps.pc = append(ps.pc, s.T)
+		ps.addPC(s.T)
 		ps.model = mT
 		return true
 	case canT:
 		ps.trail = append(ps.trail, dec{Kind: 'b', Val: 1})
-		ps.pc = append(ps.pc, s.T)
+		ps.addPC(s.T)
 		ps.model = mT
 		return true
 	case canF:
 		ps.trail = append(ps.trail, dec{Kind: 'b', Val: 0})
-		ps.pc = append(ps.pc, tt.Not(s.T))
+		ps.addPC(tt.Not(s.T))
 		ps.model = mF
 		return false
 	}
@@ -260,7 +294,7 @@ func (i *interpreter) concretize(v value) value {
 	pos := len(ps.trail)
 	take := func(val uint64) value {
 		ps.trail = append(ps.trail, dec{Kind: 'c', Val: val})
-		ps.pc = append(ps.pc, tt.Eq(s.T, tt.Const(w, val)))
+		ps.addPC(tt.Eq(s.T, tt.Const(w, val)))
 		return mkConcrete(s.K, val)
 	}
 	var excl []uint64
@@ -364,8 +398,14 @@ func (i *interpreter) assume(c value) {
 	}
 	s := c.(sv)
 	ps := i.ps()
+	if pol, ok := ps.lits[s.T.id]; ok {
+		if pol {
+			return
+		}
+		panic(pathAbort{"assumption infeasible"})
+	}
 	if v, ok := ps.evalCached(s.T); ok && v != 0 {
-		ps.pc = append(ps.pc, s.T)
+		ps.addPC(s.T)
 		return
 	}
 	r, m := i.check(s.T, true, "feas")
@@ -375,7 +415,7 @@ func (i *interpreter) assume(c value) {
 	if r == Unknown {
 		ps.inconcl++
 	}
-	ps.pc = append(ps.pc, s.T)
+	ps.addPC(s.T)
 	ps.model = m
 }
 
@@ -445,12 +485,12 @@ func (i *interpreter) assert(c value, label string) {
 func (i *interpreter) violation(label, detail string, m Model) {
 	ps := i.ps()
 	for _, v := range ps.viols {
-		if v.Label == label {
+		if v.Label == label && v.Known == ps.known {
 			return
 		}
 	}
 	ps.viols = append(ps.viols, Violation{Label: label, Detail: detail, Replay: ps.replayOf(m),
-		Stack: i.stackStrings(), Decs: len(ps.trail), Outputs: append([]string{}, ps.outputs...)})
+		Stack: i.stackStrings(), Decs: len(ps.trail), Outputs: append([]string{}, ps.outputs...), Known: ps.known})
 }
 
 // ---- exploration driver ----
@@ -522,6 +562,7 @@ func Explore(p *Program, cfg Config) (*Stats, error) {
 	if fn == nil {
 		return nil, fmt.Errorf("no harness function %s in %s", cfg.Harness, p.Main.Pkg.Path())
 	}
+	p.BuildBase()
 	st := &Stats{Covers: map[string]int{}, FuncsExecuted: map[string]int{}, StubsHit: map[string]int{}}
 	var mu sync.Mutex
 	q := &jobQueue{}
@@ -631,7 +672,11 @@ func (w *worker) runPath(fn *ssaFunc, jb job) (newJobs []job) {
 				engErr = fmt.Sprintf("engine panic: %v at %s\n%s\n%s", r, i.where(), strings.Join(i.stackStrings(), "\n"), buf[:n])
 			}
 		}()
+		tInit := time.Now()
 		call(i, nil, token.NoPos, w.prog.Main.Func("init"), nil)
+		if os.Getenv("GOSYM_TIMING") != "" {
+			fmt.Fprintf(os.Stderr, "init %v steps %d\n", time.Since(tInit), i.steps)
+		}
 		i.inHarness = true
 		call(i, nil, token.NoPos, fn, nil)
 		completed = true
@@ -671,7 +716,7 @@ func (w *worker) runPath(fn *ssaFunc, jb job) (newJobs []job) {
 	for _, v := range ps.viols {
 		dup := false
 		for _, o := range st.Violations {
-			if o.Label == v.Label {
+			if o.Label == v.Label && o.Known == v.Known {
 				dup = true
 			}
 		}
@@ -703,7 +748,7 @@ func (st *Stats) Summary() map[string]any {
 	var viols []map[string]any
 	for _, v := range st.Violations {
 		viols = append(viols, map[string]any{"label": v.Label, "detail": v.Detail, "replay": v.Replay,
-			"stack": v.Stack, "outputs": v.Outputs})
+			"stack": v.Stack, "outputs": v.Outputs, "known": v.Known})
 	}
 	return map[string]any{
 		"paths": st.Paths, "aborted": st.Aborted, "nontrivial_paths": st.NontrivialPaths,
